@@ -168,7 +168,7 @@ func runUnfold(c *Case, tr *Trace) {
 
 func init() { extraKinds["keycache"] = runKeyCache }
 
-var cacheKeys = []string{"", "a", "ab", "abc", "b", "kéy"}
+var cacheKeys = []string{"", "a", "b", "ab", "abc", "kéy"} // ids 1..: the empty key, two keys of equal length, keys sharing a prefix
 
 // runKeyCache unfolds a sequence of documents (objects whose keys follow the
 // access history of the case) into map targets, with the key cache enabled
@@ -232,8 +232,16 @@ func runKeyCache(c *Case, tr *Trace) {
 		var lru [][]string
 		pos := 0
 		var keep []interface{}
+		// sub.sharedbuf: the caller reads every document into ONE input buffer (member names of successive
+		// documents then arrive by reference from the same memory)
+		sharedbuf, _ := c.Sub["sharedbuf"].(bool)
+		shared := make([]byte, 4096)
 		for _, d := range docs {
 			buf := encode(d, pos)
+			if sharedbuf && len(buf) <= len(shared) {
+				n := copy(shared, buf)
+				buf = shared[:n]
+			}
 			pos += len(d)
 			to := newTarget()
 			keep = append(keep, to)
@@ -724,6 +732,29 @@ func runConc(c *Case, tr *Trace) {
 						}
 					}
 				}
+				{
+					// options are values: the shared Folders option of the harness combined with a folder of
+					// this goroutine only; what is folded must be this goroutine's folder's output
+					local := gotype.Folders(func(in *concLocal, v structform.ExtVisitor) error {
+						return v.OnString(fmt.Sprintf("g%d:%d", g, in.N))
+					})
+					rec := &Recorder{}
+					it, err := gotype.NewIterator(rec, userFolders, local)
+					if err == nil {
+						err = it.Fold([]interface{}{&concLocal{N: r}, &RegT{A: r}})
+					}
+					ok := err == nil && len(rec.Events) == 4 && rec.Events[1].K == "str" && rec.Events[2].K == "str" &&
+						string(intsToBytes(rec.Events[1].V)) == fmt.Sprintf("g%d:%d", g, r) &&
+						string(intsToBytes(rec.Events[2].V)) == fmt.Sprintf("R%d", r)
+					if !ok {
+						mu.Lock()
+						mismatches++
+						mu.Unlock()
+					}
+					aliveMu.Lock()
+					alive = append(alive, it)
+					aliveMu.Unlock()
+				}
 				d, ri, ru, e := pipeline(shared[vi], fmts[fi])
 				mu.Lock()
 				if e != "" {
@@ -759,6 +790,9 @@ func runConc(c *Case, tr *Trace) {
 }
 
 func ptrVD(v VD) *VD { return &v }
+
+// concLocal is folded by a folder that each goroutine of the stress rounds registers for itself.
+type concLocal struct{ N int }
 
 // ---------------------------------------------------------------- kind "goreuse" (C17: iterator and unfolder)
 
